@@ -221,6 +221,8 @@ impl<O: PackRecipient + 'static + ?Sized> ContentPackCreator<O> {
     ) -> std::io::Result<ContentAddress> {
         let content_size = content.size();
         self.progress.content_added(content_size);
+        // What is stored is the whole stream (`size()` bytes), whatever position the reader is handed at.
+        content.seek(SeekFrom::Start(0))?;
         let should_compress = self.detect_compression(content.as_mut(), comp_hint)?;
         let cluster = self.get_open_cluster(should_compress, content_size)?;
         let content_info = cluster.add_content(content)?;
